@@ -1,0 +1,9 @@
+// +build verif
+
+package cache
+
+// Contracts for the verifier in /verif (comment-only).
+
+/*@
+func Cache.Get
+@*/
